@@ -59,3 +59,14 @@ Proof.
   split; [apply opt_bset_eqb_eq|]. intros <-. unfold opt_bset_eqb. destruct a as [x|]; [|reflexivity].
   now apply bs_eqb_spec.
 Qed.
+
+(* the inclusion test (set in complete set, set in the parent's set, allowed in root): when both sets are present it is
+   inclusion, and it accepts every pair in inclusion *)
+Theorem subset_opt_iff x y : subset_opt (Some x) (Some y) = true <-> forall i, mem i x = true -> mem i y = true.
+Proof. unfold subset_opt. apply bs_subset_spec. Qed.
+
+Theorem subset_opt_complete a b : (forall i, mem_o i a = true -> mem_o i b = true) -> subset_opt a b = true.
+Proof.
+  unfold subset_opt, mem_o. destruct a as [x|], b as [y|]; intros H; try reflexivity.
+  cbn [oset] in H. now apply bs_subset_spec.
+Qed.
